@@ -11,12 +11,9 @@ namespace Hive.SerixJson
 
 mutual
 inductive JPerm : Json → Json → Prop
-  | null : JPerm .null .null
-  | bool (b : Bool) : JPerm (.bool b) (.bool b)
-  | num (n : Int) : JPerm (.num n) (.num n)
-  | str (s : String) : JPerm (.str s) (.str s)
+  | refl (j : Json) : JPerm j j
   | arr {xs ys : List Json} : JPermL xs ys → JPerm (.arr xs) (.arr ys)
-  /-- members pairwise related (same names), then permuted. -/
+  /-- members pairwise related (same names, in the same order), then permuted. -/
   | obj {ms ms' ns : List (String × Json)} : JPermM ms ms' → ms'.Perm ns → JPerm (.obj ms) (.obj ns)
 inductive JPermL : List Json → List Json → Prop
   | nil : JPermL [] []
@@ -29,17 +26,12 @@ end
 
 mutual
 inductive VEquiv : Val → Val → Prop
-  | nil : VEquiv .nil .nil
-  | bool (b : Bool) : VEquiv (.bool b) (.bool b)
-  | num (n : Int) : VEquiv (.num n) (.num n)
-  | float (b : Nat) : VEquiv (.float b) (.float b)
-  | str (s : String) : VEquiv (.str s) (.str s)
-  | bytes (bs : List UInt8) : VEquiv (.bytes bs) (.bytes bs)
+  | refl (v : Val) : VEquiv v v
   | list {xs ys : List Val} : VEquivL xs ys → VEquiv (.list xs) (.list ys)
   | struct {xs ys : List Val} : VEquivL xs ys → VEquiv (.struct xs) (.struct ys)
   | some {x y : Val} : VEquiv x y → VEquiv (.some x) (.some y)
   | iface (c : Nat) {x y : Val} : VEquiv x y → VEquiv (.iface c x) (.iface c y)
-  /-- entries pairwise related (same keys), then permuted. -/
+  /-- entries pairwise related (same keys, in the same order), then permuted. -/
   | map {es es' fs : List (Val × Val)} : VEquivE es es' → es'.Perm fs → VEquiv (.map es) (.map fs)
 inductive VEquivL : List Val → List Val → Prop
   | nil : VEquivL [] []
